@@ -40,11 +40,11 @@ Proof. pose proof GF as G. unfold good_facts in G.
   apply andb_true_iff in G. destruct G as [H1 H2]. apply negb_true_iff in H8. tauto. Qed.
 
 Lemma py_int_exn v ex : py_int v = inr ex -> ex = "ValueError" \/ ex = "TypeError" \/ (ex = "OverflowError" /\ is_number v = true).
-Proof. destruct v as [z|f t|b|s i fl|l|kv|n|t| |]; simpl; try (intros H; inversion H; auto; fail).
+Proof. destruct v as [z|f t|b|s i fl|l|kv|n|t| | |]; simpl; try (intros H; inversion H; auto; fail).
   - destruct f; intros H; inversion H; auto.
   - destruct i; intros H; inversion H; auto. Qed.
 Lemma py_float_exn v ex : py_float v = inr ex -> ex = "ValueError" \/ ex = "TypeError".
-Proof. destruct v as [z|f t|b|s i fl|l|kv|n|t| |]; simpl; try (intros H; inversion H; auto; fail).
+Proof. destruct v as [z|f t|b|s i fl|l|kv|n|t| | |]; simpl; try (intros H; inversion H; auto; fail).
   destruct fl; intros H; inversion H; auto. Qed.
 
 Lemma number_no_escape v : is_escape (clean_number F v) = false.
@@ -53,7 +53,7 @@ Proof. destruct gf_parts as (A & B & C & D & _). unfold clean_number. destruct (
   - rewrite A. destruct (py_float v) as [f|ex2] eqn:Fl; [reflexivity|]. destruct (py_float_exn _ _ Fl) as [->| ->]; rewrite ?C, ?D; reflexivity.
   - rewrite B. destruct (py_float v) as [f|ex2] eqn:Fl; [reflexivity|]. destruct (py_float_exn _ _ Fl) as [->| ->]; rewrite ?C, ?D; reflexivity. Qed.
 Lemma boolean_no_escape v : is_escape (clean_boolean v) = false.
-Proof. destruct v as [z|f t|b|s i fl|l|kv|n|t| |]; simpl; try reflexivity.
+Proof. destruct v as [z|f t|b|s i fl|l|kv|n|t| | |]; simpl; try reflexivity.
   destruct (String.eqb (lower s) "true"); [reflexivity|]. destruct (String.eqb (lower s) "false"); [reflexivity|]. destruct i; reflexivity. Qed.
 Lemma string_no_escape v : is_escape (clean_string F v) = false.
 Proof. unfold clean_string. destruct (mem_str _ _); [reflexivity|]. destruct (text_of v); reflexivity. Qed.
@@ -66,7 +66,7 @@ Proof. destruct gf_parts as (_ & _ & _ & _ & T & G & _). unfold clean_datatype. 
   - destruct (assoc_str keys s); reflexivity.
   - destruct (mem_str t (map snd keys)); reflexivity. Qed.
 Lemma tuple_no_escape v : is_escape (clean_tuple v) = false.
-Proof. destruct v as [z|f t|b|s i fl|l|kv|n|t| |]; simpl; try reflexivity. destruct l; reflexivity. Qed.
+Proof. destruct v as [z|f t|b|s i fl|l|kv|n|t| | |]; simpl; try reflexivity. destruct l; reflexivity. Qed.
 Lemma data_no_escape v : is_escape (clean_data v) = false.
 Proof. destruct v; reflexivity. Qed.
 Lemma clean_list_no_escape f l e : (forall x, is_escape (f x) = false) -> clean_list f l = inr e -> is_escape (CErr e) = false.
@@ -137,10 +137,10 @@ Proof.
   - unfold clean_number in H. destruct (is_number v) eqn:N; [inversion H; subst; exact N|].
     destruct (py_int v); [inversion H; reflexivity|]. destruct (mem_str _ _); [|discriminate].
     destruct (py_float v); [inversion H; reflexivity|]. destruct (mem_str _ _); discriminate.
-  - destruct v as [z|f t|b|s i fl|l|kv|n|t| |]; simpl in H; try discriminate; try (inversion H; reflexivity).
+  - destruct v as [z|f t|b|s i fl|l|kv|n|t| | |]; simpl in H; try discriminate; try (inversion H; reflexivity).
     destruct (String.eqb (lower s) "true"); [inversion H; reflexivity|]. destruct (String.eqb (lower s) "false"); [inversion H; reflexivity|].
     destruct i; inversion H; reflexivity.
-  - unfold clean_path in H. destruct v as [z|f t|b|s i fl|l|kv|n|t| |]; try (destruct (path_requires_text F); discriminate).
+  - unfold clean_path in H. destruct v as [z|f t|b|s i fl|l|kv|n|t| | |]; try (destruct (path_requires_text F); discriminate).
     destruct (starts_with_slash s) eqn:A.
     + destruct (me && negb (path_exists E s)) eqn:X; [discriminate|]. inversion H; subst. rewrite A. simpl.
       destruct me; simpl in *; [rewrite negb_false_iff in X; exact X | reflexivity].
@@ -156,14 +156,14 @@ Proof.
       - destruct (clean o r); inversion H; reflexivity.
       - destruct (ci_output ci); [destruct (accepts _ _ _)|]; inversion H; reflexivity. }
     subst c. rewrite Fc. reflexivity.
-  - destruct v; try discriminate. destruct (clean_list (clean item) l) as [vs|e] eqn:L; [|discriminate]. inversion H; subst.
+  - destruct v; try discriminate; [|inversion H; reflexivity]. destruct (clean_list (clean item) l) as [vs|e] eqn:L; [|discriminate]. inversion H; subst.
     eapply clean_list_typed; [|exact L]. intros x w Hx. apply (IH item x w Hx).
-  - destruct v as [z|f t|b|s i fl|l|kv|n|t| |]; simpl in H; try discriminate.
+  - destruct v as [z|f t|b|s i fl|l|kv|n|t| | |]; simpl in H; try discriminate.
     + destruct l; inversion H; reflexivity.
     + inversion H; subst. apply forallb_forall. intros [k w] Hin. apply in_map_iff in Hin. destruct Hin as [[k0 w0] [Eq _]].
       inversion Eq; subst. simpl. destruct (text_of w0); reflexivity.
   - destruct v; simpl in H; try discriminate. inversion H; reflexivity.
-  - unfold clean_datatype in H. destruct v as [z|f t|b|s i fl|l|kv|n|t| |]; simpl in H;
+  - unfold clean_datatype in H. destruct v as [z|f t|b|s i fl|l|kv|n|t| | |]; simpl in H;
       try (destruct (mem_str "TypeError" _ && _); discriminate); try discriminate.
     + destruct (assoc_str keys s) as [t|] eqn:A; [|discriminate]. inversion H; subst.
       clear - A. induction keys as [|[k v] ks IHk]; simpl in *; [discriminate|]. destruct (String.eqb k s).
@@ -181,7 +181,7 @@ Theorem number_kinds v :
   | RStr _ None (Some f) => clean_number F v = COk (RFloat f "")
   | _ => clean_number F v = CErr (EParameterNotValid "Number")
   end.
-Proof. destruct gf_parts as (A & B & C & D & _). destruct v as [z|f t|b|s i fl|l|kv|n|t| |]; unfold clean_number; simpl; try reflexivity;
+Proof. destruct gf_parts as (A & B & C & D & _). destruct v as [z|f t|b|s i fl|l|kv|n|t| | |]; unfold clean_number; simpl; try reflexivity;
   rewrite ?A, ?B, ?C, ?D; try reflexivity. destruct i; [reflexivity|]. rewrite A. destruct fl; [reflexivity|]. rewrite C. reflexivity. Qed.
 
 (* ---------- idempotence: cleaning a cleaned value returns it unchanged ---------- *)
@@ -200,7 +200,7 @@ Proof.
     simpl. rewrite NS. reflexivity.
   - pose proof (typed PNumber v c H) as T. simpl in T. unfold clean_number. rewrite T. reflexivity.
   - pose proof (typed PBoolean v c H) as T. simpl in T. destruct c; try discriminate. reflexivity.
-  - pose proof (typed (PPath me) v c H) as T. simpl in T. destruct c as [| | |s i fl| | | | | |]; try discriminate.
+  - pose proof (typed (PPath me) v c H) as T. simpl in T. destruct c as [| | |s i fl| | | | | | |]; try discriminate.
     apply andb_true_iff in T. destruct T as [A X]. unfold clean_path. rewrite A.
     replace (me && negb (path_exists E s)) with false; [reflexivity|]. destruct me; simpl in *; [rewrite X|]; reflexivity.
   - (* result: the same checks on the same command *)
@@ -211,9 +211,9 @@ Proof.
       (destruct out as [o|]; [|inversion H; reflexivity]; destruct (ci_finished ci) as [r|];
        [destruct (clean o r); inversion H; reflexivity | destruct (ci_output ci); [destruct (accepts _ _ _)|]; inversion H; reflexivity]). }
     subst c. rewrite Fc. exact H.
-  - destruct v; try discriminate. destruct (clean_list (clean item) l) as [vs|e] eqn:L; [|discriminate]. inversion H; subst.
+  - destruct v; try discriminate; [|inversion H; reflexivity]. destruct (clean_list (clean item) l) as [vs|e] eqn:L; [|discriminate]. inversion H; subst.
     rewrite (clean_list_idem (clean item) l vs); [reflexivity | | exact L]. intros x w Hx. apply (IH item x w S Hx).
-  - destruct v as [z|f t|b|s i fl|l|kv|n|t| |]; simpl in H; try discriminate.
+  - destruct v as [z|f t|b|s i fl|l|kv|n|t| | |]; simpl in H; try discriminate.
     + destruct l; inversion H; reflexivity.
     + inversion H; subst. simpl. f_equal. f_equal. rewrite map_map. apply map_ext. intros [k w]. simpl. destruct (text_of w); reflexivity.
   - destruct v; simpl in H; try discriminate. inversion H; reflexivity.
